@@ -604,6 +604,9 @@ func (env *Env) evalCall(n ECall) Val {
 				if sf := e.P.specs[q]; sf != nil {
 					return env.applySpec(sf, n.Args)
 				}
+				if sf := e.P.specs[sel.Name]; sf != nil && strings.HasSuffix(sf.Pkg, "/"+id.Name) {
+					return env.applySpec(sf, n.Args)
+				}
 				if q == "errors.Is" {
 					ea := env.coerceTo(env.eval(n.Args[0]), types.Universe.Lookup("error").Type())
 					eb := env.coerceTo(env.eval(n.Args[1]), types.Universe.Lookup("error").Type())
